@@ -67,6 +67,9 @@ def _child(prop, item, conn):
 
 
 def run_items(prop, items, jobs=None, timeout=300):
+    if os.environ.get('RV_INSTANCE_TIMEOUT'):       # dev-only: mutant / seed runs do not need the full per-instance budget
+        timeout = float(os.environ['RV_INSTANCE_TIMEOUT'])
+        items = [dict(it, timeout=min(it.get('timeout', timeout), timeout)) for it in items]
     ctx = mp.get_context('fork')
     jobs = jobs or int(os.environ.get('VERIF_JOBS', '0')) or min(16, os.cpu_count() or 4)
     pending = list(items)[::-1]
@@ -129,9 +132,11 @@ def finish(prop, tier, seed, level, results, meta, t_start):
     instr = 0
     solver_s = 0.0
     twins_ok = twins_bad = 0
+    twin_missed_ids = []
     incon = []
     soft_undecided = []
     skipped_why = []
+    rejected_by_rockit = []
     for r in results:
         counts[r['status']] = counts.get(r['status'], 0) + 1
         for k, v in r.get('stats', {}).items():
@@ -143,6 +148,8 @@ def finish(prop, tier, seed, level, results, meta, t_start):
             nontrivial.add((r.get('shape', r['id']), l))
         twins_ok += r.get('twins_ok', 0)
         twins_bad += r.get('twins_bad', 0)
+        if r.get('twins_bad'):
+            twin_missed_ids.append(r.get('id'))
         if r.get('sample') and len(samples) < 6:
             samples.append(r['sample'])
         for v in r.get('violations', []):
@@ -151,6 +158,8 @@ def finish(prop, tier, seed, level, results, meta, t_start):
                 known_hits.setdefault(v['key'], []).append(v)
             else:
                 viols.append(v)
+        if r.get('rejected'):
+            rejected_by_rockit.append({'id': r['id'], 'what': str(r.get('shape', ''))[:120], 'why': str(r['rejected'])[:200]})
         if r['status'] == 'skipped':
             skipped_why.append({'id': r['id'], 'why': str(r.get('why'))[:300]})
         if r.get('soft') and r['status'] in ('timeout', 'inconclusive') and not r.get('violations'):
@@ -185,7 +194,10 @@ def finish(prop, tier, seed, level, results, meta, t_start):
         'sx_instructions_translated': instr,
         'instances_by_status': counts,
         'twins_detected': twins_ok,
+        'instances_rejected_by_rockit_with_an_exception': len(rejected_by_rockit),
+        'rejected_examples': rejected_by_rockit[:12],
         'twins_missed': twins_bad,
+        'twins_missed_ids': twin_missed_ids[:10],
         'inconclusive': incon[:20],
         'undecided_random_instances_beyond_solver_reach': soft_undecided[:20],
         'undecided_random_instances': len(soft_undecided),
@@ -218,7 +230,7 @@ def finish(prop, tier, seed, level, results, meta, t_start):
         for i in incon[:8]:
             print('INCONCLUSIVE', i['id'], i['status'], i['why'][-400:].replace('\n', ' | '))
         if twins_bad:
-            print('INCONCLUSIVE twin (vacuity guard) not detected in %d instance(s)' % twins_bad)
+            print('INCONCLUSIVE twin (vacuity guard) not detected in %d instance(s): %s' % (twins_bad, twin_missed_ids[:10]))
         return EXIT_INCONCLUSIVE
     if counts.get('ok', 0) == 0:
         print('INCONCLUSIVE no instance completed')
